@@ -23,7 +23,8 @@ Definition enc_res (r : result) : Z :=
   match r with ROk => 0 | RMachineError => 1 | RAssertionError => 2 | RAttributeError => 3 | RRuntimeError => 4 end.
 
 Definition enc_hookrec (r : hookrec) : list Z :=
-  [1; enc_hook (h_hook r); enc_fsm (h_fsm r); enc_opt (h_runno r); enc_opt (h_stmt r)].
+  [1; enc_hook (h_hook r); enc_fsm (h_fsm r); enc_opt (h_runno r);
+   match h_hook r with HReset => -1 | _ => enc_opt (h_stmt r) end].
 Definition enc_pub (p : pub) : list Z :=
   match p with
   | PState s => [2; 0; enc_fsm s]
@@ -34,14 +35,16 @@ Definition enc_pub (p : pub) : list Z :=
   | PEndAll => [2; 5]
   | PEndCont => [2; 6]
   end.
-Definition enc_ret (x : nat * call * result) : list Z :=
-  let '(t, c, r) := x in [3; Z.of_nat t; enc_call c; enc_res r].
+Definition enc_event (e : event) : list Z :=
+  match e with
+  | EvHook h => enc_hookrec h
+  | EvPub p => enc_pub p
+  | EvRet t c r => [3; Z.of_nat t; enc_call c; enc_res r]
+  end.
 
 Definition newest {A} (new old : list A) : list A := rev (firstn (length new - length old) new).
 
-Definition delta (s s' : state) : list (list Z) :=
-  map enc_hookrec (newest (hooks s') (hooks s)) ++ map enc_pub (newest (pubs s') (pubs s))
-  ++ map enc_ret (newest (rets s') (rets s)).
+Definition delta (s s' : state) : list (list Z) := map enc_event (newest (trace s') (trace s)).
 
 Definition gate_pc (p : pc) : bool :=
   match p with
